@@ -8,3 +8,6 @@ import WindVerif.Props.C16
 import WindVerif.Props.C15
 import WindVerif.Props.C17
 import WindVerif.Props.C19
+import WindVerif.Props.C11
+import WindVerif.Props.C12
+import WindVerif.Props.C13
